@@ -3,8 +3,15 @@
 Back end of the checks in /verif (DESIGN.md section 2.2)."""
 import json, sys, time
 import z3
+from base import *
+import strs
+from strs import (SymStr, ChoiceStr, str_alts, choice_merge, choice_map, choice_bool, choice_int, choice_str, sym, is_str,
+                  str_len, str_at, str_eq, str_lt, sym_concat, sym_ite_str, str_slice, sym_index, sym_contains,
+                  sym_hasprefix, sym_hassuffix, sym_trim, sym_replace1, sym_replace_all_conc, sym_split1,
+                  cells_to_slice_content, slice_to_str, len_gt, mk as mk_str)
 
 sys.setrecursionlimit(20000)
+SOLVER_LOGIC = __import__('os').environ.get('VERIF_LOGIC', 'QF_BV')
 TRACE = bool(__import__('os').environ.get('VERIF_TRACE'))
 INT_BITS = {'int': 64, 'int64': 64, 'uint': 64, 'uint64': 64, 'uintptr': 64, 'int32': 32, 'rune': 32,
             'uint32': 32, 'int16': 16, 'uint16': 16, 'int8': 8, 'uint8': 8, 'byte': 8,
@@ -13,117 +20,6 @@ UNSIGNED = {'uint', 'uint64', 'uintptr', 'uint32', 'uint16', 'uint8', 'byte'}
 
 
 # ------------------------------------------------------------------ value classes
-class SymStr:
-    """symbolic string, array free: `cells` is a tuple of byte values (python ints or BV8 terms), the string is
-    cells[off : off+len]; off and len may be BV64 terms; maxlen is a concrete upper bound of len"""
-    __slots__ = ('cells', 'off', 'len', 'maxlen')
-
-    def __init__(self, cells, off, ln, maxlen):
-        self.cells, self.off, self.len = tuple(cells), off, ln
-        self.maxlen = min(maxlen, len(self.cells) - (off if not is_sym(off) else 0)) if not is_sym(ln) or True else maxlen
-        if self.maxlen < 0:
-            self.maxlen = 0
-
-
-def merge_cells(c, a, b):
-    """cell-wise ite of two cell tuples (shorter one padded with 0)"""
-    if a is b:
-        return a
-    n = max(len(a), len(b))
-    out = []
-    for j in range(n):
-        x = a[j] if j < len(a) else 0
-        y = b[j] if j < len(b) else 0
-        if not is_sym(x) and not is_sym(y) and x == y:
-            out.append(x)
-        elif is_sym(x) and is_sym(y) and x.eq(y):
-            out.append(x)
-        else:
-            out.append(z3.If(c, to_bv(x, 8), to_bv(y, 8)))
-    return tuple(out)
-
-
-class ChoiceStr:    # guarded set of concrete strings: alts = ((guard, bytes), ...), guards exhaustive & disjoint under pc
-    __slots__ = ('alts',)
-
-    def __init__(self, alts):
-        self.alts = tuple(alts)
-
-
-def str_alts(s):
-    if isinstance(s, bytes):
-        return ((True, s),)
-    if isinstance(s, ChoiceStr):
-        return s.alts
-    return None
-
-
-def choice_merge(c, a, b):
-    out, order = {}, []
-    for g, v in str_alts(a):
-        gg = And(c, g)
-        if gg is False:
-            continue
-        if v in out:
-            out[v] = Or(out[v], gg)
-        else:
-            out[v] = gg
-            order.append(v)
-    for g, v in str_alts(b):
-        gg = And(Not(c), g)
-        if gg is False:
-            continue
-        if v in out:
-            out[v] = Or(out[v], gg)
-        else:
-            out[v] = gg
-            order.append(v)
-    alts = [(sb(out[v]), v) for v in order]
-    alts = [(g, v) for g, v in alts if g is not False]
-    if len(alts) == 1:
-        return alts[0][1]
-    return ChoiceStr(alts)
-
-
-def choice_to_sym(s):
-    alts = s.alts
-    acc = conc_to_sym(alts[-1][1])
-    for g, v in reversed(alts[:-1]):
-        y = conc_to_sym(v)
-        acc = SymStr(merge_cells(g, y.cells, acc.cells), 0, ite_int(g, y.len, acc.len, 64), max(y.maxlen, acc.maxlen))
-    return acc
-
-
-def choice_map(f, *ss):
-    """apply f to every combination of concrete alternatives; returns list of (guard, result)"""
-    import itertools
-    res = []
-    for combo in itertools.product(*[str_alts(s) for s in ss]):
-        g = And(*[c[0] for c in combo])
-        if g is False:
-            continue
-        res.append((g, f(*[c[1] for c in combo])))
-    return res
-
-
-def choice_bool(res):
-    return sb(Or(*[g for g, r in res if r]))
-
-
-def choice_int(res, bits=64):
-    acc = res[-1][1]
-    for g, r in reversed(res[:-1]):
-        acc = ite_int(g, r, acc, bits)
-    return acc
-
-
-def choice_str(res):
-    acc = res[-1][1]
-    for g, r in reversed(res[:-1]):
-        acc = choice_merge(g, r, acc)
-    return acc
-
-
 class Ptr:          # guarded pointer set: alts = ((guard, obj|None, path), ...)
     __slots__ = ('alts',)
 
@@ -213,156 +109,6 @@ NILPTR = Ptr(((True, None, ()),))
 OPAQUE_ERROR_TYPES = {'*errors.errorString', '*fmt.wrapError'}
 
 
-def is_sym(v):
-    return isinstance(v, z3.ExprRef)
-
-
-def bvc(v, bits):
-    return z3.BitVecVal(v, bits)
-
-
-def to_bv(v, bits):
-    return v if is_sym(v) else bvc(v, bits)
-
-
-def wrap(v, bits, signed):
-    v &= (1 << bits) - 1
-    if signed and v >> (bits - 1):
-        v -= 1 << bits
-    return v
-
-
-def zbool(v):
-    return v if is_sym(v) else z3.BoolVal(bool(v))
-
-
-def And(*xs):
-    out = []
-    for x in xs:
-        if x is True:
-            continue
-        if x is False:
-            return False
-        out.append(x)
-    if not out:
-        return True
-    return out[0] if len(out) == 1 else z3.And(out)
-
-
-def Or(*xs):
-    out = []
-    for x in xs:
-        if x is False:
-            continue
-        if x is True:
-            return True
-        out.append(x)
-    if not out:
-        return False
-    return out[0] if len(out) == 1 else z3.Or(out)
-
-
-def Not(a):
-    if a is True:
-        return False
-    if a is False:
-        return True
-    return z3.Not(a)
-
-
-def sb(b):
-    """simplify bool to python constant where possible"""
-    if not is_sym(b):
-        return bool(b)
-    s = z3.simplify(b)
-    if z3.is_true(s):
-        return True
-    if z3.is_false(s):
-        return False
-    return s
-
-
-def si(v, signed=True):
-    """simplify int; concrete results become python ints"""
-    if not is_sym(v):
-        return v
-    s = z3.simplify(v)
-    if z3.is_bv_value(s):
-        return s.as_signed_long() if signed else s.as_long()
-    return s
-
-
-def ite_int(c, a, b, bits, signed=True):
-    if not is_sym(a) and not is_sym(b) and a == b:
-        return a
-    return si(z3.If(c, to_bv(a, bits), to_bv(b, bits)), signed)
-
-
-def ite_bool(c, a, b):
-    if not is_sym(a) and not is_sym(b) and a == b:
-        return a
-    return sb(z3.If(c, zbool(a), zbool(b)))
-
-
-def conc_to_sym(b):
-    return SymStr(tuple(b), 0, len(b), len(b))
-
-
-def sym(s):
-    if isinstance(s, SymStr):
-        return s
-    if isinstance(s, ChoiceStr):
-        return choice_to_sym(s)
-    return conc_to_sym(s)
-
-
-def str_len(s):
-    if isinstance(s, bytes):
-        return len(s)
-    if isinstance(s, ChoiceStr):
-        return choice_int(choice_map(len, s))
-    return s.len
-
-
-def add64(a, b):
-    if not is_sym(a) and not is_sym(b):
-        return a + b
-    return si(to_bv(a, 64) + to_bv(b, 64))
-
-
-def cells_at(cells, pos):
-    """cells[pos] for a concrete or symbolic position (ite chain over the cells; 0 outside)"""
-    if not is_sym(pos):
-        return cells[pos] if 0 <= pos < len(cells) else 0
-    acc = bvc(0, 8)
-    allc = all(not is_sym(x) for x in cells)
-    for j in reversed(range(len(cells))):
-        acc = z3.If(pos == j, to_bv(cells[j], 8), acc)
-    return si(acc, signed=False)
-
-
-def str_at(s, i):
-    if isinstance(s, bytes) and not is_sym(i):
-        return s[i]
-    s = sym(s)
-    pos = add64(s.off, i)
-    v = cells_at(s.cells, pos)
-    return si(v, signed=False) if is_sym(v) else v
-
-
-def str_eq(x, y):
-    if isinstance(x, bytes) and isinstance(y, bytes):
-        return x == y
-    if str_alts(x) is not None and str_alts(y) is not None:
-        return choice_bool(choice_map(lambda a, b: a == b, x, y))
-    x, y = sym(x), sym(y)
-    n = min(x.maxlen, y.maxlen)
-    conds = [to_bv(x.len, 64) == to_bv(y.len, 64)]
-    for j in range(n):
-        conds.append(z3.Or(z3.ULE(to_bv(x.len, 64), j), to_bv(str_at(x, j), 8) == to_bv(str_at(y, j), 8)))
-    return sb(z3.And(conds))
-
-
 def union_alts(c, a_alts, b_alts, keyf):
     """alts of a under c, of b under not c; alternatives with equal key are fused"""
     out = {}
@@ -407,10 +153,6 @@ class State:
         return State(self.pc, dict(self.env), dict(self.heap), self.defers)
 
 
-class Unsupported(Exception):
-    pass
-
-
 class NeedFork(Exception):
     def __init__(self, name, n):
         Exception.__init__(self, 'fork %s %d' % (name, n))
@@ -434,7 +176,8 @@ class Engine:
         self.implements = prog.get('implements', {})
         self.globals_decl = prog.get('globals', {})
         self.globalinit = prog.get('globalinit', {})
-        self.solver = z3.Solver()
+        self.solver = z3.SolverFor(SOLVER_LOGIC) if SOLVER_LOGIC else z3.Solver()
+        strs.ENG[0] = self
         self.obligations = []
         self.covers = []
         self.nobj = 0
@@ -459,6 +202,7 @@ class Engine:
         self.cuts = {}
         self.env_vars = {}
         self.params = {}
+        self.fnstack = []
         self.aspects = {}
         self.incoming_md = None
         self.naming = True
@@ -547,9 +291,6 @@ class Engine:
         if k == 'string':
             if isinstance(a, bytes) and isinstance(b, bytes) and a == b:
                 return a
-            if str_alts(a) is not None and str_alts(b) is not None:
-                return choice_merge(c, a, b)
-            a, b = sym(a), sym(b)
             return sym_ite_str(c, a, b)
         if k == 'ptr' or k == 'UnsafePointer':
             return Ptr(union_alts(c, a.alts, b.alts, lambda r: (r[0], r[1])))
@@ -789,8 +530,10 @@ class Engine:
         if pc is False:
             return False
         self.stats['feas'] += 1
-        if z3.is_const(pc) or z3.is_not(pc):
-            return self.solver.check(pc) != z3.unsat
+        if self.naming:
+            # assumption literals only: conjuncts are named once, the solver stays incremental
+            lits = [self.name(c) for c in (pc.children() if z3.is_and(pc) else [pc])]
+            return self.solver.check(*lits) != z3.unsat
         self.solver.push()
         self.solver.add(pc)
         r = self.solver.check()
@@ -819,23 +562,22 @@ class Engine:
                 hi = mid
         return lo
 
-    def tighten(self, st, s, threshold=6):
-        """shrink the static length bound of a symbolic string to what the path condition allows"""
-        if not isinstance(s, SymStr) or not is_sym(s.len) or s.maxlen <= threshold:
-            return s
-        ub = self.upper_bound_bin(st, s.len, s.maxlen)
-        if ub >= s.maxlen:
-            return s
-        self.stats['tightened'] = self.stats.get('tightened', 0) + 1
-        if not is_sym(s.off):
-            return SymStr(s.cells[:s.off + ub], s.off, s.len, ub)
-        return SymStr(s.cells, s.off, s.len, ub)
+    def tighten(self, st, s, threshold=4):
+        """drop the alternatives (lengths) of a symbolic string that the path condition excludes"""
+        return strs.prune_alts(self, st, s, threshold)
+
+    def curfn(self):
+        """short name of the innermost repo function being executed (panic sites are reported per function)"""
+        for f in reversed(self.fnstack):
+            if '/internal/verif' not in f and '.Verif' not in f:
+                return f.replace('github.com/onosproject/onos-config/', '').replace('github.com/onosproject/', '')
+        return self.fnstack[-1] if self.fnstack else '?'
 
     def panic(self, st, cond, what):
         """cond: condition under which the panic happens; continues with pc & !cond"""
         bad = sb(And(st.pc, cond))
         if bad is not False:
-            self.obligations.append(('panic:' + what, bad))
+            self.obligations.append(('panic:%s@%s' % (what, self.curfn()), bad))
         st.pc = self.name(sb(And(st.pc, Not(cond))))
 
     # ------------------------------------------------------------ heap
@@ -995,6 +737,7 @@ class Engine:
         pending = {0: [start]}
         backpend, iters, rets = {}, {}, []
         self.depth += 1
+        self.fnstack.append(fname)
         while pending or backpend:
             for h in sorted(backpend, key=lambda x: len(loops[x])):
                 if any(b in loops[h] and b != h for b in pending):
@@ -1043,6 +786,7 @@ class Engine:
                         iters[tgt] = 0
                     pending.setdefault(tgt, []).append(s2)
         self.depth -= 1
+        self.fnstack.pop()
         if TRACE:
             print('%s< %s %.2fs feas=%d' % ('  ' * self.depth, fname.rsplit('/', 1)[-1], time.time() - _t0, self.stats['feas']), file=sys.stderr, flush=True)
         rtypes = self.T(fn.get('results') or '').get('elems') or []
@@ -1126,15 +870,8 @@ class Engine:
             if tok in ('==', '!='):
                 r = str_eq(x, y)
                 return r if tok == '==' else Not(r)
-            if str_alts(x) is not None and str_alts(y) is not None:
-                if tok == '+':
-                    return choice_str(choice_map(lambda a, b: a + b, x, y))
-                if tok in ('<', '<=', '>', '>='):
-                    import operator
-                    opf = {'<': operator.lt, '<=': operator.le, '>': operator.gt, '>=': operator.ge}[tok]
-                    return choice_bool(choice_map(opf, x, y))
             if tok == '+':
-                return self.tighten(st, sym_concat(x, y))
+                return self.tighten(st, sym_concat(x, y), 8)
             if tok in ('<', '<=', '>', '>='):
                 lt = str_lt(x, y) if tok in ('<', '>=') else str_lt(y, x)
                 return lt if tok in ('<', '>') else Not(lt)
@@ -1253,17 +990,14 @@ class Engine:
             if isinstance(v, bytes):
                 obj = self.new_obj(st, tuple(v), None)
                 return SliceV(obj, 0, len(v), len(v), False)
-            v = sym(v)
-            cells = tuple(str_at(v, j) for j in range(v.maxlen))
+            cells, ln = cells_to_slice_content(v)
             obj = self.new_obj(st, cells, None)
-            return SliceV(obj, 0, v.len, v.maxlen, False)
+            return SliceV(obj, 0, ln, len(cells), False)
         if fk == 'slice' and tk == 'string':
             if v.obj is None:
                 return b''
             elems = st.heap[v.obj][v.off:v.off + v.cap]
-            if not is_sym(v.len) and all(not is_sym(x) for x in elems[:v.len]):
-                return bytes(elems[:v.len])
-            return SymStr(tuple(elems), 0, v.len, len(elems))
+            return slice_to_str(tuple(elems), v.len)
         if fk == 'int' and tk == 'string':
             if is_sym(v):
                 raise Unsupported('string(symbolic rune)')
@@ -1360,12 +1094,15 @@ class Engine:
             raise Unsupported('indexaddr')
         if op == 'Index':
             x, i = self.val(st, ins['x']), self.val(st, ins['index'])
-            if isinstance(x, (bytes, SymStr, ChoiceStr)):
-                if isinstance(x, ChoiceStr):
-                    x = sym(x)
+            if is_str(x):
                 n = str_len(x)
-                if is_sym(n) or is_sym(i):
+                if is_sym(i):
                     self.panic(st, sb(z3.UGE(to_bv(i, 64), to_bv(n, 64))), 'index-string')
+                elif is_sym(n):
+                    if i < 0:
+                        self.panic(st, True, 'index-string')
+                        return 0
+                    self.panic(st, Not(len_gt(x, i)), 'index-string')
                 elif not (0 <= i < n):
                     self.panic(st, True, 'index-string')
                     return 0
@@ -1455,7 +1192,7 @@ class Engine:
             return self.mapupdate(st, ins)
         if op == 'Range':
             x = self.val(st, ins['x'])
-            return RangeIter('string' if isinstance(x, (bytes, SymStr)) else 'map', x)
+            return RangeIter('string' if is_str(x) else 'map', x)
         if op == 'Next':
             return self.next(st, ins)
         raise Unsupported('op ' + op)
@@ -1486,7 +1223,7 @@ class Engine:
             if nilg is not False:
                 bad = sb(And(base_pc, nilg))
                 if bad is not False:
-                    self.obligations.append(('panic:nil-invoke', bad))
+                    self.obligations.append(('panic:nil-invoke@%s' % self.curfn(), bad))
             if not results:
                 st.pc = False
                 return self.opaque_result(ins)
@@ -1514,21 +1251,12 @@ class Engine:
     def slice(self, st, ins):
         x = self.val(st, ins['x'])
         lo = self.val(st, ins['low']) if ins['low'] else 0
-        if isinstance(x, (bytes, SymStr)):
-            n = str_len(x)
-            hi = self.val(st, ins['high']) if ins['high'] else n
-            if not is_sym(lo) and not is_sym(hi) and isinstance(x, bytes):
-                if not (0 <= lo <= hi <= len(x)):
-                    self.panic(st, True, 'slice-string')
-                    return b''
-                return x[lo:hi]
-            x = sym(x)
-            l64, h64, n64 = to_bv(lo, 64), to_bv(hi, 64), to_bv(n, 64)
-            self.panic(st, sb(z3.Not(z3.And(z3.ULE(l64, h64), z3.ULE(h64, n64)))), 'slice-string')
-            ml = x.maxlen - (lo if not is_sym(lo) else 0)
-            if not is_sym(hi):
-                ml = min(ml, hi - (lo if not is_sym(lo) else 0))
-            return SymStr(x.cells, add64(x.off, lo), si(h64 - l64), max(ml, 0))
+        if is_str(x):
+            hi = self.val(st, ins['high']) if ins['high'] else None
+            res, inrange = str_slice(x, lo, hi)
+            if inrange is not True:
+                self.panic(st, Not(inrange), 'slice-string')
+            return self.tighten(st, res, 8)
         if isinstance(x, Ptr):
             (g, obj, path), = x.alts
             arr = self.get_path(st.heap[obj], path)
@@ -1627,7 +1355,7 @@ class Engine:
 
     # ---- maps: entries (key, guard, value); keys may be symbolic ints/strings
     def key_eq(self, a, b):
-        if isinstance(a, (bytes, SymStr)) or isinstance(b, (bytes, SymStr)):
+        if is_str(a) or is_str(b):
             return str_eq(a, b)
         if not is_sym(a) and not is_sym(b):
             return a == b
@@ -1636,7 +1364,7 @@ class Engine:
 
     def lookup(self, st, ins):
         x, key = self.val(st, ins['x']), self.val(st, ins['index'])
-        if isinstance(x, (bytes, SymStr)):
+        if is_str(x):
             raise Unsupported('string lookup')
         et = self.T(self.under(ins['x']['t'])[0])['elem']
         res, found = self.zero(et), False
@@ -1680,8 +1408,7 @@ class Engine:
         it = st.env[ins['iter']['n']]
         if it.kind == 'string':
             s, i = it.x, it.pos
-            n = str_len(s)
-            ok = (i < n) if not is_sym(n) else (sb(z3.UGT(n, i)) if i < s.maxlen else False)
+            ok = len_gt(s, i)
             if ok is False:
                 return (False, 0, 0)
             ch = str_at(s, i)
@@ -1743,7 +1470,7 @@ def i_sprintf(e, st, args, ins):
     vals = [st.heap[va.obj][va.off + j] for j in range(va.len)] if va.obj is not None else []
     if not isinstance(fmt, bytes):
         return Opaque('sprintf')
-    pieces, i, ai = [], 0, 0      # pieces: bytes | ('int', bv)
+    pieces, i, ai = [], 0, 0      # pieces: string values
     while i < len(fmt):
         ch = fmt[i:i + 1]
         if ch != b'%':
@@ -1762,8 +1489,8 @@ def i_sprintf(e, st, args, ins):
         if not (isinstance(iv, Iface) and len(iv.alts) == 1):
             return Opaque('sprintf')
         (g, dt, v), = iv.alts
-        if verb in (b's', b'v') and isinstance(v, (bytes, SymStr, ChoiceStr)):
-            pieces.append(v if isinstance(v, bytes) else ('str', v))
+        if verb in (b's', b'v') and is_str(v):
+            pieces.append(v)
         elif verb in (b'd', b'v') and isinstance(v, int) and not isinstance(v, bool):
             pieces.append(str(v).encode())
         elif verb in (b'd', b'v') and is_sym(v) and z3.is_bv(v):
@@ -1771,30 +1498,17 @@ def i_sprintf(e, st, args, ins):
             bad = sb(And(st.pc, z3.UGE(v, 100)))
             if bad is not False:
                 e.obligations.append(('bound:itoa<100', bad))
-            pieces.append(('int', z3.Extract(7, 0, v)))
+            v8 = z3.Extract(7, 0, v)
+            one = z3.ULT(v8, 10)
+            d_hi = z3.UDiv(v8, bvc(10, 8)) + 48
+            d_lo = z3.URem(v8, bvc(10, 8)) + 48
+            pieces.append(mk_str([(one, (d_lo,)), (Not(one), (d_hi, d_lo))]))
         else:
             return Opaque('sprintf')   # only flows into log / error text
-    if all(isinstance(p, bytes) for p in pieces):
-        return b''.join(pieces)
-    if any(isinstance(p, tuple) and p[0] == 'str' for p in pieces):
-        if any(isinstance(p, tuple) and p[0] == 'int' for p in pieces):
-            return Opaque('sprintf')
-        acc = b''
-        for p in pieces:
-            acc = sym_concat(acc, p if isinstance(p, bytes) else p[1])
-        return acc
     acc = b''
     for p in pieces:
-        if isinstance(p, bytes):
-            acc = sym_concat(acc, p)
-        else:
-            v8 = p[1]
-            one = z3.ULT(v8, 10)
-            d_hi = z3.If(one, v8 + 48, z3.UDiv(v8, bvc(10, 8)) + 48)
-            d_lo = z3.URem(v8, bvc(10, 8)) + 48
-            num = SymStr((d_hi, d_lo), 0, si(z3.If(one, bvc(1, 64), bvc(2, 64))), 2)
-            acc = sym_concat(acc, num)
-    return acc
+        acc = sym_concat(acc, p)
+    return e.tighten(st, acc, 8)
 
 
 def conc(*vs):
@@ -1803,68 +1517,12 @@ def conc(*vs):
             raise Unsupported('intrinsic needs concrete args')
 
 
-def i_hasprefix(e, st, a, i):
-    if str_alts(a[0]) is None or str_alts(a[1]) is None:
-        raise Unsupported('HasPrefix on symbolic array strings')
-    return choice_bool(choice_map(lambda x, y: x.startswith(y), a[0], a[1]))
-
-
-def i_equalfold(e, st, a, i):
-    if str_alts(a[0]) is None or str_alts(a[1]) is None:
-        raise Unsupported('EqualFold on symbolic array strings')
-    return choice_bool(choice_map(lambda x, y: x.lower() == y.lower(), a[0], a[1]))
-
-
-def i_lastindex(e, st, a, i):
-    s, sep = a
-    if isinstance(s, bytes) and isinstance(sep, bytes):
-        return s.rfind(sep)
-    conc(sep)
-    if len(sep) != 1:
-        raise Unsupported('LastIndex with multi-byte separator on a symbolic string')
-    s = sym(s)
-    ln = to_bv(s.len, 64)
-    acc = bvc(-1, 64)
-    for j in range(s.maxlen):
-        acc = z3.If(z3.And(z3.UGT(ln, j), to_bv(str_at(s, j), 8) == sep[0]), bvc(j, 64), acc)
-    return si(acc)
-
-
 def i_new_of_result(e, st, a, i):
     """return (pointer to a fresh zero value of the first result's elem type, nil error)"""
     elems = e.T(i['type'])['elems']
     pt = e.T(e.under(elems[0])[0])
     obj = e.new_obj(st, e.zero(pt['elem']), pt['elem'])
     return (Ptr(((True, obj, ()),)), e.zero(elems[1]))
-
-
-
-def i_nondet_string(e, st, a, i):
-    name, maxlen, alpha = a[0].decode(), a[1], a[2]
-    cnt = e.nondet_count.get(name, 0)
-    e.nondet_count[name] = cnt + 1
-    name = '%s#%d' % (name, cnt)
-    cells = tuple(z3.BitVec('str_%s_%d' % (name, j), 8) for j in range(maxlen))
-    ln = z3.BitVec('len_' + name, 64)
-    e.solver.add(z3.ULE(ln, maxlen))
-    for j in range(maxlen):
-        e.solver.add(z3.Or([cells[j] == ch for ch in alpha]))
-    e.inputs[name] = ('str', cells, ln, maxlen)
-    return SymStr(cells, 0, ln, maxlen)
-
-
-def i_nondet_string_n(e, st, a, i):
-    name, n, alpha = a[0].decode(), a[1], a[2]
-    if is_sym(n):
-        raise Unsupported('NondetStringN with symbolic length')
-    cnt = e.nondet_count.get(name, 0)
-    e.nondet_count[name] = cnt + 1
-    name = '%s#%d' % (name, cnt)
-    cells = tuple(z3.BitVec('str_%s_%d' % (name, j), 8) for j in range(n))
-    for j in range(n):
-        e.solver.add(z3.Or([cells[j] == ch for ch in alpha]))
-    e.inputs[name] = ('str', cells, bvc(n, 64), n)
-    return SymStr(cells, 0, n, n)
 
 
 def i_param(e, st, a, i):
@@ -1990,407 +1648,6 @@ def nondet_signed(e, st, a, i, bits):
     return nondet(e, st, a, i, lambda n: z3.BitVec(n, bits))
 
 
-def i_tolower(e, st, a, i):
-    conc(a[0])
-    return a[0].lower()
-
-
-def i_split(e, st, a, i):
-    """strings.Split(s, sep) for a one-byte concrete separator; s may be symbolic (bounded)"""
-    s, sep = a
-    conc(sep)
-    if isinstance(s, bytes):
-        parts = s.split(sep) if sep else [s[k:k + 1] for k in range(len(s))]
-        obj = e.new_obj(st, tuple(parts), None)
-        return SliceV(obj, 0, len(parts), len(parts), False)
-    if len(sep) != 1:
-        raise Unsupported('Split with multi-byte separator on a symbolic string')
-    s = sym(s)
-    L = s.maxlen
-    ln = to_bv(s.len, 64)
-    sepb = bvc(sep[0], 8)
-    is_sep = [z3.And(z3.UGT(ln, j), to_bv(str_at(s, j), 8) == sepb) for j in range(L)]
-    cnt = [bvc(0, 8)]                      # cnt[j] = number of separators in s[0:j]
-    for j in range(L):
-        cnt.append(cnt[-1] + z3.If(is_sep[j], bvc(1, 8), bvc(0, 8)))
-    nparts = si(z3.ZeroExt(56, cnt[L]) + 1)
-    parts = []
-    for k in range(L + 1):
-        # start_k: 0 for k == 0, else 1 + position of the k-th separator; end_k: position of the (k+1)-th separator or len
-        def pos_of(nth):
-            acc = ln
-            for j in reversed(range(L)):
-                acc = z3.If(z3.And(is_sep[j], cnt[j] == nth), bvc(j, 64), acc)
-            return acc
-        start = bvc(0, 64) if k == 0 else pos_of(k - 1) + 1
-        end = pos_of(k)
-        parts.append(SymStr(s.cells, si(to_bv(s.off, 64) + start), si(end - start), L))
-    obj = e.new_obj(st, tuple(parts), None)
-    return SliceV(obj, 0, nparts, L + 1, False)
-
-
-def i_contains(e, st, a, i):
-    s, sub = a
-    if isinstance(s, bytes) and isinstance(sub, bytes):
-        return sub in s
-    s, sub = sym(s), sym(sub)
-    sl, bl = to_bv(s.len, 64), to_bv(sub.len, 64)
-    alts = []
-    for o in range(s.maxlen + 1):
-        conds = [z3.ULE(bvc(o, 64) + bl, sl), z3.ULE(bl, sl)]
-        for j in range(sub.maxlen):
-            if o + j < s.maxlen:
-                conds.append(z3.Or(z3.ULE(bl, j), to_bv(str_at(s, o + j), 8) == to_bv(str_at(sub, j), 8)))
-            else:
-                conds.append(z3.ULE(bl, j))
-        alts.append(z3.And(conds))
-    return sb(z3.Or(alts))
-
-
-
-# ---- strings.Builder: the buf field (index 1) holds a SliceV of bytes
-def _builder_buf(e, st, bptr):
-    return e.load(st, Ptr([(g, o, p + (1,)) for g, o, p in bptr.alts if o is not None]), '[]byte')
-
-
-def _builder_set(e, st, bptr, sl):
-    e.store(st, Ptr([(g, o, p + (1,)) for g, o, p in bptr.alts if o is not None]), sl, '[]byte')
-
-
-def i_builder_writebyte(e, st, a, i):
-    buf = _builder_buf(e, st, a[0])
-    _builder_set(e, st, a[0], e.append1(st, buf, a[1], 'uint8'))
-    return e.zero(i['type']) if i.get('type') else None
-
-
-def i_builder_writerune(e, st, a, i):
-    r = a[1]
-    b = (r & 0xff) if not is_sym(r) else si(z3.Extract(7, 0, r), signed=False)
-    buf = _builder_buf(e, st, a[0])
-    _builder_set(e, st, a[0], e.append1(st, buf, b, 'uint8'))
-    return (1, e.zero(e.T(i['type'])['elems'][1]))
-
-
-def i_builder_writestring(e, st, a, i):
-    s = a[1]
-    buf = _builder_buf(e, st, a[0])
-    if isinstance(s, bytes):
-        for ch in s:
-            buf = e.append1(st, buf, ch, 'uint8')
-    else:
-        s = sym(s)
-        ln = to_bv(s.len, 64)
-        for j in range(s.maxlen):
-            nb = e.append1(st, buf, str_at(s, j), 'uint8')
-            g = sb(z3.UGT(ln, j))
-            buf = e.merge_val(g, nb, buf, '[]byte', st.heap, st.heap, st.heap)
-    _builder_set(e, st, a[0], buf)
-    return (str_len(s), e.zero(e.T(i['type'])['elems'][1]))
-
-
-def i_builder_string(e, st, a, i):
-    buf = _builder_buf(e, st, a[0])
-    if buf.obj is None:
-        return b''
-    elems = st.heap[buf.obj][buf.off:buf.off + buf.cap]
-    if not is_sym(buf.len) and all(not is_sym(x) for x in elems[:buf.len]):
-        return bytes(elems[:buf.len])
-    return SymStr(tuple(elems), 0, buf.len, len(elems))
-
-
-def i_indexbyte(e, st, a, i):
-    s, c = a
-    if isinstance(s, bytes) and not is_sym(c):
-        return s.find(bytes([c]))
-    s = sym(s)
-    ln = to_bv(s.len, 64)
-    acc = bvc(-1, 64)
-    for j in reversed(range(s.maxlen)):
-        acc = z3.If(z3.And(z3.UGT(ln, j), to_bv(str_at(s, j), 8) == to_bv(c, 8)), bvc(j, 64), acc)
-    return si(acc)
-
-
-def i_sort_strings(e, st, a, i):
-    sl = a[0]
-    n = e.upper_bound(st, sl.len)
-    if n <= 1:
-        return None
-    raise Unsupported('sort.Strings on more than one symbolic string (prototype)')
-
-
-
-# ---- symbolic string algebra used by several intrinsics
-def sym_concat(a, b):
-    """a + b for any string representations"""
-    if isinstance(a, bytes) and isinstance(b, bytes):
-        return a + b
-    if str_alts(a) is not None and str_alts(b) is not None:
-        return choice_str(choice_map(lambda x, y: x + y, a, b))
-    a, b = sym(a), sym(b)
-    n = a.maxlen + b.maxlen
-    if not is_sym(a.len):
-        cells = [str_at(a, j) for j in range(a.len)] + [str_at(b, j) for j in range(b.maxlen)]
-        return SymStr(cells, 0, add64(a.len, b.len), a.len + b.maxlen)
-    # rebase a at offset 0; cell k holds a[k] below len(a) and b[k - len(a)] above
-    la = to_bv(a.len, 64)
-    bc = [str_at(b, j) for j in range(b.maxlen)]
-    cells = []
-    for k in range(n):
-        ak = str_at(a, k) if k < a.maxlen else 0
-        # b[k - la]: la ranges over 0..min(k, a.maxlen)
-        acc = bvc(0, 8)
-        for l in range(min(k, a.maxlen) + 1):
-            if k - l < len(bc):
-                acc = z3.If(la == l, to_bv(bc[k - l], 8), acc)
-        if k < a.maxlen:
-            cells.append(si(z3.If(z3.UGT(la, k), to_bv(ak, 8), acc), signed=False))
-        else:
-            cells.append(si(acc, signed=False))
-    return SymStr(cells, 0, si(la + to_bv(b.len, 64)), n)
-
-
-def str_lt(x, y):
-    """lexicographic x < y on symbolic strings (byte-wise)"""
-    x, y = sym(x), sym(y)
-    n = max(x.maxlen, y.maxlen)
-    lx, ly = to_bv(x.len, 64), to_bv(y.len, 64)
-    res = z3.BoolVal(False)
-    # from the last position backwards: lt_j = (j >= lx and j < ly) or (j < lx and j < ly and (x[j] < y[j] or (x[j] == y[j] and lt_{j+1})))
-    res = z3.ULT(lx, ly) if n == 0 else None
-    acc = z3.BoolVal(False)
-    for j in reversed(range(n + 1)):
-        inx, iny = z3.UGT(lx, j), z3.UGT(ly, j)
-        if j == n:
-            acc = z3.And(z3.Not(inx), iny)
-            continue
-        xj, yj = to_bv(str_at(x, j), 8), to_bv(str_at(y, j), 8)
-        acc = z3.Or(z3.And(z3.Not(inx), iny), z3.And(inx, iny, z3.Or(z3.ULT(xj, yj), z3.And(xj == yj, acc))))
-    return sb(acc)
-
-
-def sym_substr(s, lo, hi):
-    s = sym(s)
-    return SymStr(s.cells, add64(s.off, lo), si(to_bv(hi, 64) - to_bv(lo, 64)), s.maxlen)
-
-
-def sym_match_at(s, sub, o):
-    """sub occurs in s at (concrete) offset o"""
-    sl, bl = to_bv(s.len, 64), to_bv(sub.len, 64)
-    conds = [z3.ULE(bvc(o, 64) + bl, sl), z3.ULE(bl, sl)]
-    for j in range(sub.maxlen):
-        if o + j < s.maxlen:
-            conds.append(z3.Or(z3.ULE(bl, j), to_bv(str_at(s, o + j), 8) == to_bv(str_at(sub, j), 8)))
-        else:
-            conds.append(z3.ULE(bl, j))
-    return z3.And(conds)
-
-
-def sym_index(s, sub):
-    s, sub = sym(s), sym(sub)
-    acc = bvc(-1, 64)
-    for o in reversed(range(s.maxlen + 1)):
-        acc = z3.If(sym_match_at(s, sub, o), bvc(o, 64), acc)
-    return si(acc)
-
-
-def sym_ite_str(c, a, b):
-    if c is True:
-        return a
-    if c is False:
-        return b
-    a, b = sym(a), sym(b)
-    if a.cells is b.cells:
-        return SymStr(a.cells, ite_int(c, a.off, b.off, 64), ite_int(c, a.len, b.len, 64), max(a.maxlen, b.maxlen))
-    return SymStr(merge_cells(c, a.cells, b.cells), ite_int(c, a.off, b.off, 64), ite_int(c, a.len, b.len, 64),
-                  max(a.maxlen, b.maxlen))
-
-
-def i_replace(e, st, a, i):
-    s, old, new, n = a
-    if all(isinstance(x, bytes) for x in (s, old, new)) and not is_sym(n):
-        return s.replace(old, new, n)
-    if is_sym(n) or n != 1:
-        raise Unsupported('strings.Replace with n != 1 on symbolic strings')
-    o = sym_index(s, old)
-    found = sb(to_bv(o, 64) != bvc(-1, 64)) if is_sym(o) else (o >= 0)
-    if found is False:
-        return s
-    ss = sym(s)
-    head = sym_substr(ss, 0, o)
-    tail = sym_substr(ss, si(to_bv(o, 64) + to_bv(str_len(old), 64)), ss.len)
-    res = e.tighten(st, sym_concat(e.tighten(st, sym_concat(head, new)), tail))
-    return e.tighten(st, sym_ite_str(found, res, ss))
-
-
-def i_join(e, st, a, i):
-    sl, sep = a
-    if sl.obj is None:
-        return b''
-    elems = st.heap[sl.obj][sl.off:sl.off + sl.cap]
-    if not is_sym(sl.len) and all(isinstance(x, bytes) for x in elems[:sl.len]) and isinstance(sep, bytes):
-        return sep.join(elems[:sl.len])
-    acc = b''
-    for j, x in enumerate(elems):
-        g = (j < sl.len) if not is_sym(sl.len) else sb(z3.UGT(to_bv(sl.len, 64), j))
-        if g is False:
-            break
-        nxt = x if j == 0 else e.tighten(st, sym_concat(sym_concat(acc, sep), x))
-        acc = nxt if g is True else sym_ite_str(g, nxt, acc)
-    return e.tighten(st, acc) if isinstance(acc, SymStr) else acc
-
-
-def i_hassuffix(e, st, a, i):
-    s, suf = a
-    if isinstance(s, bytes) and isinstance(suf, bytes):
-        return s.endswith(suf)
-    conc(suf)
-    s = sym(s)
-    n = len(suf)
-    ln = to_bv(s.len, 64)
-    conds = [z3.UGE(ln, n)]
-    for j in range(n):
-        # byte at len-n+j
-        pos = si(ln - n + j)
-        conds.append(to_bv(str_at(s, pos), 8) == suf[j])
-    return sb(z3.And(conds))
-
-
-def _trim(s, cutset, left, right):
-    """strings.Trim* with a concrete cutset"""
-    conc(cutset)
-    if isinstance(s, bytes):
-        if left:
-            s = s.lstrip(cutset)
-        if right:
-            s = s.rstrip(cutset)
-        return s
-    if str_alts(s) is not None:
-        return choice_str(choice_map(lambda x: _trim(x, cutset, left, right), s))
-    s = sym(s)
-    ln = to_bv(s.len, 64)
-    L = s.maxlen
-    incut = [z3.And(z3.UGT(ln, j), z3.Or([to_bv(str_at(s, j), 8) == c for c in cutset])) for j in range(L)]
-    lo = bvc(0, 64)
-    if left:
-        # number of leading bytes in the cutset
-        allp = z3.BoolVal(True)
-        for j in range(L):
-            allp = z3.And(allp, incut[j])
-            lo = z3.If(allp, bvc(j + 1, 64), lo)
-    hi = ln
-    if right:
-        # trailing: byte at position len-1-k
-        allp = z3.BoolVal(True)
-        for k in range(L):
-            pos = si(ln - 1 - k)
-            inr = z3.UGT(ln, k)
-            ch = to_bv(str_at(s, pos), 8) if is_sym(pos) else to_bv(str_at(s, pos) if 0 <= pos < L else 0, 8)
-            allp = z3.And(allp, inr, z3.Or([ch == c for c in cutset]))
-            hi = z3.If(allp, ln - (k + 1), hi)
-    # everything trimmed from the left: lo == len, and then hi may be < lo -> empty
-    hi = z3.If(z3.ULT(hi, lo), lo, hi)
-    return SymStr(s.cells, si(to_bv(s.off, 64) + lo), si(hi - lo), L)
-
-
-def i_trim(e, st, a, i):
-    return _trim(a[0], a[1], True, True)
-
-
-def i_trimleft(e, st, a, i):
-    return _trim(a[0], a[1], True, False)
-
-
-def i_trimright(e, st, a, i):
-    return _trim(a[0], a[1], False, True)
-
-
-def i_trimprefix(e, st, a, i):
-    s, pre = a
-    if isinstance(s, bytes) and isinstance(pre, bytes):
-        return s[len(pre):] if s.startswith(pre) else s
-    if str_alts(s) is not None and str_alts(pre) is not None:
-        return choice_str(choice_map(lambda x, y: x[len(y):] if x.startswith(y) else x, s, pre))
-    has = i_hasprefix_sym(e, st, a, i)
-    ss = sym(s)
-    cut = SymStr(ss.cells, add64(ss.off, str_len(pre)), si(to_bv(ss.len, 64) - to_bv(str_len(pre), 64)), ss.maxlen)
-    return sym_ite_str(has, cut, ss)
-
-
-def i_trimsuffix(e, st, a, i):
-    s, suf = a
-    if isinstance(s, bytes) and isinstance(suf, bytes):
-        return s[:len(s) - len(suf)] if suf and s.endswith(suf) else s
-    if str_alts(s) is not None and str_alts(suf) is not None:
-        return choice_str(choice_map(lambda x, y: x[:len(x) - len(y)] if y and x.endswith(y) else x, s, suf))
-    has = i_hassuffix(e, st, a, i)
-    ss = sym(s)
-    cut = SymStr(ss.cells, ss.off, si(to_bv(ss.len, 64) - to_bv(str_len(suf), 64)), ss.maxlen)
-    return sym_ite_str(has, cut, ss)
-
-
-def i_hasprefix_sym(e, st, a, i):
-    s, pre = a
-    if str_alts(s) is not None and str_alts(pre) is not None:
-        return choice_bool(choice_map(lambda x, y: x.startswith(y), s, pre))
-    return sb(sym_match_at(sym(s), sym(pre), 0))
-
-
-def i_re_findall_sym(e, st, a, i):
-    """(*regexp.Regexp).FindAllStringSubmatch(s, -1) -- hand model of the pattern (\\[.*?]).*? on symbolic strings
-    (bytes assumed != newline): matches are the shortest '[' ... ']' spans, left to right, non-overlapping;
-    a '[' only starts a match if some ']' follows it."""
-    rx, s, n = a
-    pat = rx.tag[1]
-    if isinstance(s, bytes):
-        import re
-        ms = list(re.finditer(pat.encode('latin1'), s))
-        rows = []
-        for m in ms:
-            row = e.new_obj(st, tuple(m.group(k) for k in range(0, (m.re.groups) + 1)), None)
-            rows.append(SliceV(row, 0, m.re.groups + 1, m.re.groups + 1, False))
-        if not rows:
-            return SliceV(None, 0, 0, 0)
-        obj = e.new_obj(st, tuple(rows), None)
-        return SliceV(obj, 0, len(rows), len(rows), False)
-    if pat != '(\\[.*?]).*?':
-        raise Unsupported('no symbolic model for pattern ' + pat)
-    s = sym(s)
-    L = s.maxlen
-    ln = to_bv(s.len, 64)
-    is_open = [z3.And(z3.UGT(ln, j), to_bv(str_at(s, j), 8) == ord('[')) for j in range(L)]
-    is_close = [z3.And(z3.UGT(ln, j), to_bv(str_at(s, j), 8) == ord(']')) for j in range(L)]
-    close_after = [None] * (L + 1)
-    close_after[L] = z3.BoolVal(False)
-    for j in reversed(range(L)):
-        close_after[j] = z3.Or(is_close[j], close_after[j + 1])     # some ']' at position >= j
-    maxm = L // 2
-    starts = [bvc(0, 64)] * maxm
-    ends = [bvc(0, 64)] * maxm
-    cnt = bvc(0, 8)
-    inm = z3.BoolVal(False)
-    cur = bvc(0, 64)
-    for j in range(L):
-        begin = z3.And(z3.Not(inm), is_open[j], close_after[j + 1] if j + 1 <= L else False)
-        finish = z3.And(inm, is_close[j])
-        for k in range(maxm):
-            hit = z3.And(finish, cnt == k)
-            starts[k] = z3.If(hit, cur, starts[k])
-            ends[k] = z3.If(hit, bvc(j + 1, 64), ends[k])
-        cnt = z3.If(finish, cnt + 1, cnt)
-        cur = z3.If(begin, bvc(j, 64), cur)
-        inm = z3.Or(begin, z3.And(inm, z3.Not(finish)))
-    rows = []
-    for k in range(maxm):
-        m = sym_substr(s, si(starts[k]), si(ends[k]))
-        row = e.new_obj(st, (m, m), None)
-        rows.append(SliceV(row, 0, 2, 2, False))
-    if not rows:
-        return SliceV(None, 0, 0, 0)
-    obj = e.new_obj(st, tuple(rows), None)
-    nm = si(z3.ZeroExt(56, cnt))
-    return SliceV(obj, 0, nm, maxm, sb(to_bv(nm, 64) == 0) if is_sym(nm) else nm == 0)
-
-
 def i_sort_slice(e, st, a, i):
     """sort.Slice(x, less): bubble sort over the backing array, guarded by the (symbolic) length"""
     (g, dt, sl), = a[0].alts
@@ -2430,30 +1687,324 @@ def i_field_uint64(e, st, a, i):
     raise Unsupported('FieldUint64: no field ' + fname)
 
 
-def i_re_findall(e, st, a, i):
-    rx, s, n = a
-    conc(s)
-    import re
-    pat = rx.tag[1] if isinstance(rx, Ptr) is False and isinstance(rx, Opaque) else None
-    if pat is None:
-        raise Unsupported('regexp receiver')
-    ms = [m for m in re.finditer(pat.encode() if isinstance(pat, str) else pat, s)]
-    if not ms:
-        return SliceV(None, 0, 0, 0)
-    raise Unsupported('FindAllStringSubmatch with matches (prototype)')
+def _builder_buf(e, st, bptr):
+    return e.load(st, Ptr([(g, o, p + (1,)) for g, o, p in bptr.alts if o is not None]), '[]byte')
+
+
+def _builder_set(e, st, bptr, sl):
+    e.store(st, Ptr([(g, o, p + (1,)) for g, o, p in bptr.alts if o is not None]), sl, '[]byte')
+
+
+def i_builder_writebyte(e, st, a, i):
+    buf = _builder_buf(e, st, a[0])
+    _builder_set(e, st, a[0], e.append1(st, buf, a[1], 'uint8'))
+    return e.zero(i['type']) if i.get('type') else None
+
+
+def i_builder_writerune(e, st, a, i):
+    r = a[1]
+    b = (r & 0xff) if not is_sym(r) else si(z3.Extract(7, 0, r), signed=False)
+    buf = _builder_buf(e, st, a[0])
+    _builder_set(e, st, a[0], e.append1(st, buf, b, 'uint8'))
+    return (1, e.zero(e.T(i['type'])['elems'][1]))
 
 
 def i_re_mustcompile(e, st, a, i):
-    conc(a[0])
-    return Opaque(('regexp', a[0].decode('latin1')))
+    """regexp.MustCompile: panics iff the pattern does not compile (decided natively by Go's regexp for every
+    concrete alternative of the pattern)"""
+    pat = a[0]
+    if isinstance(pat, bytes):
+        if not go_compiles(pat):
+            e.panic(st, True, 'regexp-mustcompile')
+            st.pc = False
+            return None
+        return Opaque(('regexp', pat.decode('latin1')))
+    if isinstance(pat, ChoiceStr):
+        bad = Or(*[g for g, p_ in pat.alts if not go_compiles(p_)])
+        if bad is not False:
+            e.panic(st, bad, 'regexp-mustcompile')
+        return Opaque(('regexp', pat))
+    raise Unsupported('regexp.MustCompile of a fully symbolic pattern (use a pool of concrete alternatives)')
+
+
+def i_nondet_string(e, st, a, i):
+    name, maxlen, alpha = a[0].decode(), a[1], a[2]
+    cnt = e.nondet_count.get(name, 0)
+    e.nondet_count[name] = cnt + 1
+    name = '%s#%d' % (name, cnt)
+    cells = tuple(z3.BitVec('str_%s_%d' % (name, j), 8) for j in range(maxlen))
+    ln = z3.BitVec('len_' + name, 64)
+    e.solver.add(z3.ULE(ln, maxlen))
+    for j in range(maxlen):
+        e.solver.add(z3.Or([cells[j] == ch for ch in alpha]))
+    e.inputs[name] = ('str', cells, ln, maxlen)
+    return mk_str([(ln == n, cells[:n]) for n in range(maxlen + 1)])
+
+
+def i_nondet_string_n(e, st, a, i):
+    name, n, alpha = a[0].decode(), a[1], a[2]
+    if is_sym(n):
+        raise Unsupported('NondetStringN with symbolic length')
+    cnt = e.nondet_count.get(name, 0)
+    e.nondet_count[name] = cnt + 1
+    name = '%s#%d' % (name, cnt)
+    cells = tuple(z3.BitVec('str_%s_%d' % (name, j), 8) for j in range(n))
+    for j in range(n):
+        e.solver.add(z3.Or([cells[j] == ch for ch in alpha]))
+    e.inputs[name] = ('str', cells, bvc(n, 64), n)
+    return mk_str([(True, cells)])
+
+
+def i_tolower(e, st, a, i):
+    s = a[0]
+    if str_alts(s) is not None:
+        return choice_str(choice_map(lambda x: x.lower(), s))
+    low = lambda x: (x + 32 if 65 <= x <= 90 else x) if not is_sym(x) else z3.If(z3.And(z3.UGE(x, 65), z3.ULE(x, 90)), x + 32, x)
+    return mk_str([(g, tuple(low(x) for x in cs)) for g, cs in sym(s).alts])
+
+
+def i_equalfold(e, st, a, i):
+    return str_eq(i_tolower(e, st, [a[0]], i), i_tolower(e, st, [a[1]], i))
+
+
+def i_split(e, st, a, i):
+    """strings.Split(s, sep) for a one-byte concrete separator"""
+    s, sep = a
+    conc(sep)
+    if isinstance(s, bytes):
+        parts = s.split(sep) if sep else [s[k:k + 1] for k in range(len(s))]
+        obj = e.new_obj(st, tuple(parts), None)
+        return SliceV(obj, 0, len(parts), len(parts), False)
+    if len(sep) != 1:
+        raise Unsupported('Split with multi-byte separator on a symbolic string')
+    if isinstance(s, ChoiceStr):
+        # every alternative is concrete: split natively, merge the part lists
+        res = choice_map(lambda x: x.split(sep), s)
+        maxp = max(len(r) for g, r in res)
+        parts = []
+        for k in range(maxp):
+            parts.append(choice_str([(g, r[k] if k < len(r) else b'') for g, r in res]))
+        n = choice_int([(g, len(r)) for g, r in res])
+        obj = e.new_obj(st, tuple(parts), None)
+        return SliceV(obj, 0, n, maxp, False)
+    parts, n = sym_split1(s, sep[0])
+    parts = [e.tighten(st, p) for p in parts]
+    obj = e.new_obj(st, tuple(parts), None)
+    return SliceV(obj, 0, n, len(parts), False)
+
+
+def i_join(e, st, a, i):
+    sl, sep = a
+    if sl.obj is None:
+        return b''
+    elems = st.heap[sl.obj][sl.off:sl.off + sl.cap]
+    if not is_sym(sl.len) and all(isinstance(x, bytes) for x in elems[:sl.len]) and isinstance(sep, bytes):
+        return sep.join(elems[:sl.len])
+    acc = b''
+    for j, x in enumerate(elems):
+        g = (j < sl.len) if not is_sym(sl.len) else sb(z3.UGT(to_bv(sl.len, 64), j))
+        if g is False:
+            break
+        nxt = x if j == 0 else sym_concat(sym_concat(acc, sep), x)
+        acc = nxt if g is True else sym_ite_str(g, nxt, acc)
+        acc = e.tighten(st, acc, 6)
+    return acc
+
+
+def i_replace(e, st, a, i):
+    s, old, new, n = a
+    if all(isinstance(x, bytes) for x in (s, old, new)) and not is_sym(n):
+        return s.replace(old, new, n)
+    if not is_sym(n) and all(str_alts(x) is not None for x in (s, old, new)):
+        return choice_str(choice_map(lambda x, y, z: x.replace(y, z, n), s, old, new))
+    if is_sym(n) or n != 1:
+        raise Unsupported('strings.Replace with n != 1 on symbolic strings')
+    return e.tighten(st, sym_replace1(s, old, new), 6)
+
+
+def i_replaceall(e, st, a, i):
+    s, old, new = a
+    if all(str_alts(x) is not None for x in (s, old, new)):
+        return choice_str(choice_map(lambda x, y, z: x.replace(y, z), s, old, new))
+    conc(old, new)
+    if not old:
+        raise Unsupported('ReplaceAll with empty pattern')
+    return e.tighten(st, sym_replace_all_conc(s, old, new), 6)
+
+
+def i_builder_writestring(e, st, a, i):
+    s = a[1]
+    buf = _builder_buf(e, st, a[0])
+    if isinstance(s, bytes):
+        for ch in s:
+            buf = e.append1(st, buf, ch, 'uint8')
+    else:
+        cells, ln = cells_to_slice_content(s)
+        for j in range(len(cells)):
+            nb = e.append1(st, buf, cells[j], 'uint8')
+            g = len_gt(s, j)
+            buf = e.merge_val(g, nb, buf, '[]byte', st.heap, st.heap, st.heap)
+    _builder_set(e, st, a[0], buf)
+    return (str_len(s), e.zero(e.T(i['type'])['elems'][1]))
+
+
+def i_builder_string(e, st, a, i):
+    buf = _builder_buf(e, st, a[0])
+    if buf.obj is None:
+        return b''
+    elems = st.heap[buf.obj][buf.off:buf.off + buf.cap]
+    return e.tighten(st, slice_to_str(tuple(elems), buf.len), 8)
+
+
+def i_indexbyte(e, st, a, i):
+    s, c = a
+    if isinstance(s, bytes) and not is_sym(c):
+        return s.find(bytes([c]))
+    return sym_index(s, mk_str([(True, (c,))]))
+
+
+def i_sort_strings(e, st, a, i):
+    """sort.Strings: compare-exchange (bubble) network over the backing array, guarded by the symbolic length"""
+    sl = a[0]
+    if sl.obj is None:
+        return None
+    n = sl.cap
+    ln = sl.len
+    for rnd in range(n):
+        for j in range(n - 1 - rnd):
+            inr = ((j + 1) < ln) if not is_sym(ln) else sb(z3.UGT(to_bv(ln, 64), j + 1))
+            if inr is False:
+                continue
+            arr = list(st.heap[sl.obj])
+            x, y = arr[sl.off + j], arr[sl.off + j + 1]
+            c = sb(And(inr, str_lt(y, x)))
+            if c is False:
+                continue
+            arr[sl.off + j] = sym_ite_str(c, y, x)
+            arr[sl.off + j + 1] = sym_ite_str(c, x, y)
+            st.heap[sl.obj] = tuple(arr)
+    return None
+
+
+def _rx_pattern(rx):
+    """pattern of a compiled regexp value: str (constant pattern), bytes or ChoiceStr (dynamic pattern)"""
+    if isinstance(rx, Opaque) and isinstance(rx.tag, tuple) and rx.tag[0] == 'regexp':
+        return rx.tag[1]
+    raise Unsupported('regexp receiver %r' % (rx,))
+
+
+class GoHelper:
+    """native call-out to Go's regexp (bin/gohelper) for concrete arguments; results are cached"""
+    proc = None
+    cache = {}
+
+    @classmethod
+    def call(cls, op, pat, s=b'', n=0):
+        import subprocess, os
+        if isinstance(pat, str):
+            pat = pat.encode('latin1')
+        key = (op, pat, s, n)
+        if key in cls.cache:
+            return cls.cache[key]
+        if cls.proc is None or cls.proc.poll() is not None or cls.pid != os.getpid():
+            exe = os.path.join(os.path.dirname(os.path.dirname(os.path.abspath(__file__))), 'bin', 'gohelper')
+            cls.proc = subprocess.Popen([exe], stdin=subprocess.PIPE, stdout=subprocess.PIPE)
+            cls.pid = os.getpid()
+        cls.proc.stdin.write((json.dumps({'op': op, 'pat': list(pat), 's': list(s), 'n': n}) + '\n').encode())
+        cls.proc.stdin.flush()
+        r = json.loads(cls.proc.stdout.readline())
+        cls.cache[key] = r
+        return r
+
+
+def go_compiles(pat):
+    return GoHelper.call('compile', pat)['ok']
+
+
+def go_match(pat, s):
+    return GoHelper.call('match', pat, s)['match']
+
+
+def go_findstring(pat, s):
+    return bytes(GoHelper.call('findstring', pat, s).get('str') or [])
+
+
+def go_findall(pat, s):
+    return [[bytes(g) for g in row] for row in (GoHelper.call('findall', pat, s).get('rows') or [])]
+
+
+def i_re_findall(e, st, a, i):
+    """(*regexp.Regexp).FindAllStringSubmatch(s, -1): concrete subjects are matched natively (python re on byte
+    strings; the repo's patterns use only syntax common to RE2 and re); symbolic subjects use the hand model of
+    the constant pattern"""
+    rx, s, n = a
+    pat = _rx_pattern(rx)
+
+    def rows_for(b):
+        return go_findall(pat, b)
+
+    def build(rows):
+        if not rows:
+            return SliceV(None, 0, 0, 0)
+        robjs = []
+        for r in rows:
+            ro = e.new_obj(st, tuple(r), None)
+            robjs.append(SliceV(ro, 0, len(r), len(r), False))
+        obj = e.new_obj(st, tuple(robjs), None)
+        return SliceV(obj, 0, len(rows), len(rows), False)
+    if isinstance(s, bytes):
+        return build(rows_for(s))
+    if pat != '(\\[.*?]).*?':
+        raise Unsupported('no symbolic model for pattern ' + pat)
+    if isinstance(s, ChoiceStr):
+        res = choice_map(rows_for, s)
+        maxr = max(len(r) for g, r in res)
+        if maxr == 0:
+            return SliceV(None, 0, 0, 0)
+        robjs = []
+        for k in range(maxr):
+            m = choice_str([(g, r[k][0] if k < len(r) else b'') for g, r in res])
+            ro = e.new_obj(st, (m, m), None)
+            robjs.append(SliceV(ro, 0, 2, 2, False))
+        obj = e.new_obj(st, tuple(robjs), None)
+        nm_ = choice_int([(g, len(r)) for g, r in res])
+        return SliceV(obj, 0, nm_, maxr, sb(to_bv(nm_, 64) == 0) if is_sym(nm_) else nm_ == 0)
+    matches, cnt = strs.re_onindex_matches(s)
+    if not matches:
+        return SliceV(None, 0, 0, 0)
+    robjs = []
+    for m in matches:
+        m = e.tighten(st, m)
+        ro = e.new_obj(st, (m, m), None)
+        robjs.append(SliceV(ro, 0, 2, 2, False))
+    obj = e.new_obj(st, tuple(robjs), None)
+    return SliceV(obj, 0, cnt, len(robjs), sb(to_bv(cnt, 64) == 0) if is_sym(cnt) else cnt == 0)
 
 
 def i_re_findstring(e, st, a, i):
     rx, s = a
-    conc(s)
-    import re
-    m = re.search(rx.tag[1].encode('latin1'), s)
-    return m.group(0) if m else b''
+    pat = _rx_pattern(rx)
+
+    patb = pat.encode('latin1') if isinstance(pat, str) else pat
+    if str_alts(s) is not None and str_alts(patb) is not None:
+        return choice_str(choice_map(lambda p_, b: go_findstring(p_, b), patb, s))
+    if pat == '(/[a-zA-Z0-9:=\\-\\._[\\]]+)+':
+        # only compared with the subject: equal iff the whole subject matches (or the subject is empty);
+        # otherwise the real result is a proper substring, modelled by the empty string
+        full = Or(strs.re_validpath_full(s), Not(len_gt(s, 0)))
+        return sym_ite_str(sb(full), s, b'')
+    raise Unsupported('no symbolic model for FindString of ' + pat)
+
+
+def i_re_matchstring(e, st, a, i):
+    rx, s = a
+    pat = _rx_pattern(rx)
+    patb = pat.encode('latin1') if isinstance(pat, str) else pat
+    if str_alts(s) is not None and str_alts(patb) is not None:
+        return choice_bool(choice_map(lambda p_, b: go_match(p_, b), patb, s))
+    if pat == '^([a-zA-Z0-9\\*\\-\\._])+$':
+        return strs.re_index_allowed(s)
+    raise Unsupported('no symbolic model for MatchString of ' + pat)
 
 
 INTRINSICS = {
@@ -2478,7 +2029,6 @@ INTRINSICS = {
     '(time.Time).Unix': lambda e, st, a, i: 0,
     'google.golang.org/grpc/status.New': lambda e, st, a, i: Ptr(((True, e.new_obj(st, (a[0],), None), ()),)),
     '(*google.golang.org/grpc/internal/status.Status).Err': lambda e, st, a, i: Iface(((True, '*google.golang.org/grpc/internal/status.Error', a[0]),)),
-    'strings.HasSuffix': lambda e, st, a, i: (conc(*a), a[0].endswith(a[1]))[1],
     '(*sync.RWMutex).RLock': lambda e, st, a, i: None,
     '(*sync.RWMutex).RUnlock': lambda e, st, a, i: None,
     '(*sync.RWMutex).Lock': lambda e, st, a, i: None,
@@ -2499,11 +2049,11 @@ INTRINSICS = {
     'os.Getenv': i_getenv,
     'strings.ToLower': i_tolower,
     'strings.Split': i_split,
-    'strings.Contains': i_contains,
+    'strings.Contains': lambda e, st, a, i: sym_contains(a[0], a[1]),
+    'strings.Index': lambda e, st, a, i: sym_index(a[0], a[1]),
     'google.golang.org/grpc/status.Errorf': lambda e, st, a, i: Iface(((True, '*google.golang.org/grpc/internal/status.Error', Opaque('grpcerr')),)),
-    'strings.HasPrefix': i_hasprefix,
     'strings.EqualFold': i_equalfold,
-    'strings.LastIndex': i_lastindex,
+    'strings.LastIndex': lambda e, st, a, i: sym_index(a[0], a[1], last=True),
     'github.com/onosproject/onos-config/pkg/controller/utils.GetOnosConfigID': lambda e, st, a, i: b'gnmi:onos-config',
     '(*github.com/onosproject/onos-api/go/onos/topo.Object).GetAspect': i_get_aspect,
 
@@ -2530,17 +2080,30 @@ INTRINSICS = {
 
 
 INTRINSICS.update({
-    'strings.Trim': i_trim,
-    'strings.TrimLeft': i_trimleft,
-    'strings.TrimRight': i_trimright,
-    'strings.TrimPrefix': i_trimprefix,
-    'strings.TrimSuffix': i_trimsuffix,
+    'strings.Trim': lambda e, st, a, i: (conc(a[1]), e.tighten(st, sym_trim(a[0], a[1], True, True)))[1],
+    'strings.TrimLeft': lambda e, st, a, i: (conc(a[1]), e.tighten(st, sym_trim(a[0], a[1], True, False)))[1],
+    'strings.TrimRight': lambda e, st, a, i: (conc(a[1]), e.tighten(st, sym_trim(a[0], a[1], False, True)))[1],
+    'strings.TrimPrefix': lambda e, st, a, i: sym_ite_str(sym_hasprefix(a[0], a[1]), str_slice(a[0], str_len(a[1]), None)[0], a[0]),
+    'strings.TrimSuffix': lambda e, st, a, i: i_trimsuffix(e, st, a, i),
     'strings.Replace': i_replace,
+    'strings.ReplaceAll': i_replaceall,
     'strings.Join': i_join,
-    'strings.HasSuffix': i_hassuffix,
-    'strings.HasPrefix': i_hasprefix_sym,
-    '(*regexp.Regexp).FindAllStringSubmatch': i_re_findall_sym,
+    'strings.HasSuffix': lambda e, st, a, i: sym_hassuffix(a[0], a[1]),
+    'strings.HasPrefix': lambda e, st, a, i: sym_hasprefix(a[0], a[1]),
+    '(*regexp.Regexp).MatchString': i_re_matchstring,
 })
+
+
+def i_trimsuffix(e, st, a, i):
+    s, suf = a
+    has = sym_hassuffix(s, suf)
+    if has is False:
+        return s
+    n, m = str_len(s), str_len(suf)
+    hi = (n - m) if not is_sym(n) and not is_sym(m) else si(to_bv(n, 64) - to_bv(m, 64))
+    cut, _ = str_slice(s, 0, hi)
+    return sym_ite_str(has, cut, s)
+
 
 # named cuts: a harness may replace a real callee by one of these models (engine.cuts = {callee: cutname});
 # every cut is listed in the evidence as an assumption
